@@ -32,6 +32,12 @@ func (s *verifStream) drawBits(n int) uint64 {
 	return u
 }
 
+// exhausted: an explorer's source that has ended says so through an optional IsEnded method.
+func (s *verifStream) exhausted() bool {
+	e, ok := s.src.(interface{ IsEnded() bool })
+	return ok && e.IsEnded()
+}
+
 func (s *verifStream) beginGroup(label string, standalone bool) int {
 	s.src.BeginGroup(label, standalone)
 	return s.recordedBits.beginGroup(label, standalone)
